@@ -83,6 +83,7 @@ type PeerCfg struct {
 	OnMessage func(p *RefPeer, m refwire.Message) bool // true: handled, skip the default
 	OnReady   func(p *RefPeer)                          // after the handshakes
 	StopRead  bool                                      // never read (congestion)
+	NoKeepAlive bool
 }
 
 type action struct {
@@ -159,6 +160,13 @@ type RefPeer struct {
 	MyReqs  []*myReq
 	chokesRecv [][2]uint64 // (tick, epoch) of every choke received
 	rawAdvertised bool     // the scenario sent advertisements of its own
+	everAdvertised map[int]bool
+	everUnchoked   bool
+	PexAnnounced   map[string]bool // what the system has announced to us over PEX and not dropped
+	PexMsgs        int
+	writing        bool
+	lastSend       time.Time
+	wq             simrt.WaitQ
 	OnEvent func(ev string)
 	Viol    func(prop, oracle, class, format string, args ...any)
 }
@@ -230,6 +238,11 @@ func (p *RefPeer) resetConn() {
 	p.ChokingSys, p.UnchokeSent = true, false
 	p.Outstanding = map[blk]*sysReq{}
 	p.actions = nil
+	p.everAdvertised = map[int]bool{}
+	p.everUnchoked = false
+	p.PexAnnounced = map[string]bool{}
+	p.HaveEpoch, p.DontEpoch, p.FastSent = map[int]int{}, map[int]int{}, map[int]bool{}
+	p.MyReqs, p.chokesRecv, p.ReqLog = nil, nil, nil
 }
 
 // Connect opens a connection to the system's listening port.
@@ -420,7 +433,14 @@ func (p *RefPeer) run(initiate bool) {
 			p.inLoop = false
 			continue
 		}
-		dl := time.Now().Add(10 * time.Minute)
+		// keep-alive, as every client sends
+		if !p.Cfg.NoKeepAlive && time.Since(p.lastSend) >= 100*time.Second {
+			p.Send(refwire.KeepAlive{})
+		}
+		dl := p.lastSend.Add(100 * time.Second)
+		if p.Cfg.NoKeepAlive {
+			dl = time.Now().Add(10 * time.Minute)
+		}
 		if len(p.actions) > 0 && p.actions[0].at.Before(dl) {
 			dl = p.actions[0].at
 		}
@@ -458,19 +478,23 @@ func (p *RefPeer) run(initiate bool) {
 }
 
 func (p *RefPeer) Send(m refwire.Message) error {
-	if p.Closed || p.conn == nil {
-		return net.ErrClosed
-	}
-	_, err := p.rw.Write(refwire.Encode(m))
-	return err
+	return p.SendRaw(refwire.Encode(m))
 }
 
-// SendRaw writes bytes as they are.
+// SendRaw writes bytes as they are (one writer at a time: a write may
+// block on the window, and frames must not interleave).
 func (p *RefPeer) SendRaw(b []byte) error {
+	for p.writing {
+		p.wq.Wait(0)
+	}
 	if p.Closed || p.conn == nil {
 		return net.ErrClosed
 	}
+	p.writing = true
+	p.lastSend = time.Now()
 	_, err := p.rw.Write(b)
+	p.writing = false
+	p.wq.Wake()
 	return err
 }
 
@@ -559,9 +583,13 @@ func (p *RefPeer) sendPreamble() {
 }
 
 func (p *RefPeer) noteAdvertised() {
+	if p.everAdvertised == nil {
+		p.everAdvertised = map[int]bool{}
+	}
 	for i, h := range p.Have {
 		if h {
 			p.HaveEpoch[i] = p.W.Epoch
+			p.everAdvertised[i] = true
 		}
 	}
 }
@@ -582,6 +610,7 @@ func (p *RefPeer) Unchoke() {
 	}
 	p.ChokingSys = false
 	p.UnchokeSent = true
+	p.everUnchoked = true
 	p.Send(refwire.Unchoke{})
 }
 
@@ -623,6 +652,10 @@ func (p *RefPeer) SetHave(i int, have bool) {
 	}
 	if have {
 		p.Have[i] = true
+		if p.everAdvertised == nil {
+			p.everAdvertised = map[int]bool{}
+		}
+		p.everAdvertised[i] = true
 		p.HaveEpoch[i] = p.W.Epoch
 		delete(p.DontEpoch, i)
 		p.Send(refwire.Have{Index: uint32(i)})
@@ -639,6 +672,7 @@ func (p *RefPeer) SetHave(i int, have bool) {
 
 func (p *RefPeer) receive(m refwire.Message) {
 	p.Recv = append(p.Recv, RecvMsg{Tick: p.W.rc.Tick(), At: p.W.rc.S.Now(), Epoch: p.W.Epoch, Msg: m})
+	p.conform(m)
 	if p.Cfg.OnMessage != nil && p.Cfg.OnMessage(p, m) {
 		return
 	}
@@ -684,11 +718,18 @@ func (p *RefPeer) receive(m refwire.Message) {
 	case refwire.Piece:
 		p.onPiece(m)
 	case refwire.RejectRequest:
+		found := false
 		for _, r := range p.MyReqs {
 			if r.Req.Index == m.Index && r.Req.Begin == m.Begin && r.Req.Length == m.Length && r.Answered == 0 && !r.Rejected {
 				r.Rejected = true
+				found = true
 				break
 			}
+		}
+		if !(p.Cfg.Fast && p.SysHS.Fast()) {
+			p.Viol("C16", "reject-without-fast", "", "%s: reject (%d, %d, %d) on a connection without the fast extension", p.Cfg.Name, m.Index, m.Begin, m.Length)
+		} else if !found {
+			p.Viol("C16", "reject-unknown", "", "%s: reject (%d, %d, %d) names no pending request of this connection", p.Cfg.Name, m.Index, m.Begin, m.Length)
 		}
 	case refwire.Extended:
 		p.onExtended(m)
@@ -790,6 +831,16 @@ func (p *RefPeer) answer(r *sysReq) {
 		delete(p.Outstanding, k)
 	}
 	simrt.Probe(fmt.Sprintf("answer-kind-%d", r.Kind))
+	if r.Kind != AnsReject && r.Kind != AnsSilent {
+		for i := 0; i < p.Spec.Geo.NPieces; i++ {
+			// any data we send may end up in any piece (misplaced, wrong index)
+			if r.Kind == AnsRight || r.Kind == AnsDuplicate || r.Kind == AnsLong {
+				p.W.noteHoldable(p.Spec, int(m.Index))
+				break
+			}
+			p.W.noteHoldable(p.Spec, i)
+		}
+	}
 	if r.Kind != AnsRight {
 		p.W.rc.Tracef("%s answers request (%d, %d, %d) with %s", p.Cfg.Name, m.Index, m.Begin, m.Length, ansNames[r.Kind])
 	}
@@ -867,37 +918,231 @@ func (p *RefPeer) CancelReq(index, begin, length uint32) {
 // onPiece: the system uploads to us.  The content check is the C01/C16
 // content monitor at this exit point.
 func (p *RefPeer) onPiece(m refwire.Piece) {
-	truth := p.Spec.Block(int(m.Index), int64(m.Begin), int64(len(m.Data)))
-	if int(m.Index) >= p.Spec.Geo.NPieces || !bytes.Equal(truth, m.Data) {
+	// ground truth by linear addressing: (index, begin) names the byte at
+	// index*pieceSize+begin of the torrent
+	var truth []byte
+	if abs := int64(m.Index)*p.Spec.Geo.PieceSize + int64(m.Begin); abs >= 0 && abs+int64(len(m.Data)) <= p.Spec.Geo.Length {
+		truth = p.Spec.Content[abs : abs+int64(len(m.Data))]
+	}
+	if truth == nil || !bytes.Equal(truth, m.Data) {
 		p.Viol("C16", "upload-content", "", "%s: piece message (%d, %d, %d bytes) does not carry the torrent's content at that range", p.Cfg.Name, m.Index, m.Begin, len(m.Data))
 		p.Viol("C01", "upload-content", "", "%s: piece message (%d, %d, %d bytes) does not carry the torrent's content at that range", p.Cfg.Name, m.Index, m.Begin, len(m.Data))
 	}
-	var match *myReq
-	for _, r := range p.MyReqs {
-		if r.Req.Index == m.Index && r.Req.Begin == m.Begin && r.Answered == 0 && !r.Rejected {
-			match = r
-			break
+	voided := func(r *myReq) bool {
+		// the request had reached the system before it choked us
+		for _, c := range p.chokesRecv {
+			if c[0] > r.Tick && int(c[1]) > r.Epoch {
+				return true
+			}
 		}
+		return false
 	}
-	if match == nil {
-		p.Viol("C16", "unsolicited-piece", "", "%s: piece message (%d, %d, %d bytes) answers no pending request of this connection", p.Cfg.Name, m.Index, m.Begin, len(m.Data))
-		return
+	cancelledForSure := func(r *myReq) bool { return r.Cancelled && p.W.Epoch > r.CancelEpoch }
+	var exact, sameBlock, dead *myReq
+	for _, r := range p.MyReqs {
+		if r.Req.Index != m.Index || r.Req.Begin != m.Begin || r.Answered != 0 || r.Rejected {
+			continue
+		}
+		if sameBlock == nil {
+			sameBlock = r
+		}
+		if uint32(len(m.Data)) != r.Req.Length {
+			continue
+		}
+		if voided(r) || cancelledForSure(r) {
+			if dead == nil {
+				dead = r
+			}
+			continue
+		}
+		exact = r
+		break
 	}
-	match.Answered++
-	if uint32(len(m.Data)) != match.Req.Length {
-		p.Viol("C16", "upload-length", "", "%s: requested %d bytes at (%d, %d), got %d", p.Cfg.Name, match.Req.Length, m.Index, m.Begin, len(m.Data))
-	}
+	simrt.Probe("upload-received")
 	if !p.SysUnchokedUs {
 		p.Viol("C16", "piece-while-choked", "", "%s: piece message (%d, %d) arrived while the system is choking us", p.Cfg.Name, m.Index, m.Begin)
 	}
-	for _, c := range p.chokesRecv {
-		if c[0] > match.Tick && int(c[1]) > match.Epoch {
-			p.Viol("C16", "piece-for-choked-away-request", "", "%s: piece (%d, %d) answers a request that had reached the system before it choked us", p.Cfg.Name, m.Index, m.Begin)
-			break
+	switch {
+	case exact != nil:
+		exact.Answered++
+	case dead != nil:
+		dead.Answered++
+		if voided(dead) {
+			p.Viol("C16", "piece-for-choked-away-request", "", "%s: piece (%d, %d) answers only a request that had reached the system before it choked us", p.Cfg.Name, m.Index, m.Begin)
+		} else {
+			p.Viol("C16", "piece-after-cancel", "", "%s: piece (%d, %d) answers only a request cancelled before the last quiescent point", p.Cfg.Name, m.Index, m.Begin)
+		}
+	case sameBlock != nil:
+		sameBlock.Answered++
+		p.Viol("C16", "upload-length", "", "%s: requested %d bytes at (%d, %d), got %d", p.Cfg.Name, sameBlock.Req.Length, m.Index, m.Begin, len(m.Data))
+	default:
+		tot, ans, rej := 0, 0, 0
+		for _, r := range p.MyReqs {
+			if r.Req.Index == m.Index && r.Req.Begin == m.Begin {
+				tot++
+				if r.Answered > 0 {
+					ans++
+				}
+				if r.Rejected {
+					rej++
+				}
+			}
+		}
+		p.Viol("C16", "unsolicited-piece", "", "%s: piece message (%d, %d, %d bytes) answers no pending request of this connection (%d requests were made for this block: %d answered, %d rejected)", p.Cfg.Name, m.Index, m.Begin, len(m.Data), tot, ans, rej)
+	}
+}
+
+// ---- C11: conformance of everything the system sends --------------------------------
+
+// conform judges one message from the system.  Rules that depend on state
+// we established (choke, retraction, answers) use the epoch rule: the
+// system is held to that state only once a quiescent point has followed our
+// sending it, so a message that crossed ours in flight is never flagged.
+func (p *RefPeer) conform(m refwire.Message) {
+	g := p.Spec.Geo
+	np := g.NPieces
+	fast := p.Cfg.Fast && p.SysHS.Fast()
+	ep := p.W.Epoch
+	switch m := m.(type) {
+	case refwire.Request:
+		i := int(m.Index)
+		if i >= np {
+			p.Viol("C11", "request-range", "piece", "%s: request for piece %d of %d", p.Cfg.Name, i, np)
+			return
+		}
+		pl := g.PieceLen(i)
+		if m.Begin%chunkSize != 0 || int64(m.Begin) >= pl {
+			p.Viol("C11", "request-range", "offset", "%s: request (%d, %d, %d): offset not a 16 KiB multiple inside the piece (%d bytes)", p.Cfg.Name, i, m.Begin, m.Length, pl)
+			return
+		}
+		want := int64(chunkSize)
+		if rem := pl - int64(m.Begin); rem < want {
+			want = rem // only the torrent's final block is shorter
+		}
+		if int64(m.Length) != want {
+			p.Viol("C11", "request-length", "", "%s: request (%d, %d) has length %d, the block is %d bytes", p.Cfg.Name, i, m.Begin, m.Length, want)
+			return
+		}
+		if !p.Have[i] {
+			if !p.everAdvertised[i] {
+				p.Viol("C11", "request-not-advertised", "never", "%s: request for piece %d, which this peer never advertised", p.Cfg.Name, i)
+				return
+			} else if e, ok := p.DontEpoch[i]; ok && ep > e {
+				p.Viol("C11", "request-not-advertised", "retracted", "%s: request for piece %d, retracted before the last quiescent point", p.Cfg.Name, i)
+				return
+			}
+		}
+		if p.ChokingSys && !(fast && p.FastSent[i]) {
+			if !p.everUnchoked {
+				p.Viol("C11", "request-while-choked", "never-unchoked", "%s: request (%d, %d) although this peer never unchoked the system nor allowed-fast the piece", p.Cfg.Name, i, m.Begin)
+				return
+			} else if ep > p.ChokeEpoch {
+				p.Viol("C11", "request-while-choked", "after-choke", "%s: request (%d, %d) written after a quiescent point that followed our choke", p.Cfg.Name, i, m.Begin)
+				return
+			}
+		}
+		if r := p.Outstanding[blk{i, m.Begin}]; r != nil {
+			p.Viol("C11", "request-duplicate", "", "%s: request (%d, %d) is already outstanding on this connection", p.Cfg.Name, i, m.Begin)
+			return
+		}
+		limit := 250 // BEP 10 default when no reqq was advertised
+		if p.SentReqq >= 0 {
+			limit = p.SentReqq
+		}
+		limit = max(limit, 2)
+		if len(p.Outstanding)+1 > limit {
+			class := ""
+			if p.SentReqq == 0 {
+				class = "reqq-zero"
+			}
+			p.Viol("C11", "request-pipeline", class, "%s: %d requests outstanding, advertised queue depth %d", p.Cfg.Name, len(p.Outstanding)+1, p.SentReqq)
+		}
+	case refwire.Cancel:
+		var last *sysReq
+		for _, r := range p.ReqLog {
+			if r.Req == (refwire.Request{Index: m.Index, Begin: m.Begin, Length: m.Length}) {
+				last = r
+			}
+		}
+		if last == nil {
+			p.Viol("C11", "cancel-unknown", "", "%s: cancel (%d, %d, %d) names no request received on this connection", p.Cfg.Name, m.Index, m.Begin, m.Length)
+		} else if last.Answered && (last.Kind == AnsRight || last.Kind == AnsReject || last.Kind == AnsDuplicate) && ep > last.AnswerEpoch {
+			p.Viol("C11", "cancel-answered", "", "%s: cancel (%d, %d) for a request answered before the last quiescent point", p.Cfg.Name, m.Index, m.Begin)
+		}
+	case refwire.Bitfield:
+		if len(m.Bits) != (np+7)/8 {
+			p.Viol("C11", "bitfield-length", fmt.Sprintf("pieces-mod-8=%d", np%8), "%s: bitfield of %d bytes for %d pieces, want %d", p.Cfg.Name, len(m.Bits), np, (np+7)/8)
+			return
+		}
+		for i := np; i < len(m.Bits)*8; i++ {
+			if m.Bits[i/8]&(0x80>>uint(i%8)) != 0 {
+				p.Viol("C11", "bitfield-spare-bits", "", "%s: spare bit %d set in the bitfield", p.Cfg.Name, i)
+				return
+			}
+		}
+		for i := 0; i < np; i++ {
+			if m.Bits[i/8]&(0x80>>uint(i%8)) != 0 && !p.W.MayHold(p.Spec, i) {
+				p.Viol("C11", "bitfield-content", "", "%s: bitfield claims piece %d, which the system cannot hold", p.Cfg.Name, i)
+				return
+			}
+		}
+	case refwire.Have:
+		if int(m.Index) >= np {
+			p.Viol("C11", "have-range", "", "%s: have %d of %d pieces", p.Cfg.Name, m.Index, np)
+		} else if !p.W.MayHold(p.Spec, int(m.Index)) {
+			p.Viol("C11", "have-content", "", "%s: have %d, which the system cannot hold", p.Cfg.Name, m.Index)
+		}
+	case refwire.HaveAll:
+		if !fast {
+			p.Viol("C11", "fast-message-without-fast", "have-all", "%s: have-all without the fast extension", p.Cfg.Name)
+		}
+		for i := 0; i < np; i++ {
+			if !p.W.MayHold(p.Spec, i) {
+				p.Viol("C11", "have-all-content", "", "%s: have-all, but the system cannot hold piece %d", p.Cfg.Name, i)
+				break
+			}
+		}
+	case refwire.HaveNone, refwire.AllowedFast, refwire.SuggestPiece:
+		if !fast {
+			p.Viol("C11", "fast-message-without-fast", "", "%s: %T without the fast extension", p.Cfg.Name, m)
+		}
+	case refwire.Extended:
+		if !(p.Cfg.Ext && p.SysHS.Extended()) {
+			p.Viol("C11", "extended-without-extension", "", "%s: extended message without the extension protocol", p.Cfg.Name)
+			return
+		}
+		switch m.SubID {
+		case 7: // lt_donthave, the id we announced
+			if p.Cfg.NoDontHave {
+				p.Viol("C11", "extension-not-offered", "lt_donthave", "%s: lt_donthave although we did not offer it", p.Cfg.Name)
+			} else if idx, err := refwire.DecodeDontHave(m.Payload); err != nil || int(idx) >= np {
+				p.Viol("C11", "donthave-range", "", "%s: dont-have %d of %d pieces (%v)", p.Cfg.Name, idx, np, err)
+			}
+		case 1: // ut_pex
+			if p.Cfg.NoPex {
+				p.Viol("C11", "extension-not-offered", "ut_pex", "%s: ut_pex although we did not offer it", p.Cfg.Name)
+				return
+			}
+			added, dropped, err := refwire.DecodePex(m.Payload, true)
+			if err != nil {
+				p.Viol("C11", "pex-format", "", "%s: PEX message not strictly decodable: %v", p.Cfg.Name, err)
+				return
+			}
+			p.PexMsgs++
+			for _, a := range added {
+				k := fmt.Sprintf("%v:%d", a.IP, a.Port)
+				if p.PexAnnounced[k] {
+					p.Viol("C11", "pex-added-twice", "", "%s: PEX announces %s, which is already announced", p.Cfg.Name, k)
+				}
+				p.PexAnnounced[k] = true
+			}
+			for _, d := range dropped {
+				k := fmt.Sprintf("%v:%d", d.IP, d.Port)
+				if !p.PexAnnounced[k] {
+					p.Viol("C11", "pex-dropped-unknown", "", "%s: PEX drops %s, which was not announced", p.Cfg.Name, k)
+				}
+				delete(p.PexAnnounced, k)
+			}
 		}
 	}
-	if match.Cancelled && p.W.Epoch > match.CancelEpoch {
-		p.Viol("C16", "piece-after-cancel", "", "%s: piece (%d, %d) was sent after a quiescent point that followed our cancel", p.Cfg.Name, m.Index, m.Begin)
-	}
-	simrt.Probe("upload-received")
 }
